@@ -169,3 +169,18 @@ Proof.
   intro H. apply check_msp_sound_k; [|exact H]. unfold check_msp in H. apply andb_true_iff in H as [H _].
   now apply Nat.leb_le.
 Qed.
+
+(* ---- simple_scan: acceptance by [check_simple] gives, for every interval, a witness position for which the interval
+   passes [check_iv] (hence clauses (c), (d), (e) by the lemmas above) and whose canonical p-mer has the reported bucket *)
+Lemma check_simple_sound seq k p sc l : check_simple seq k p sc l = true ->
+  Forall (fun x => exists q, check_iv seq k p sc (mkS (sub q p seq) q (snd (fst x)) (snd x)) = true /\
+                             bucket16 (sub q p seq) = fst (fst x)) l /\
+  check_simple_chain seq k l = true.
+Proof.
+  unfold check_simple. intro H. repeat (apply andb_prop in H; destruct H as [H ?]).
+  split; [|assumption].
+  match goal with Hf : forallb _ l = true |- _ => rewrite forallb_forall in Hf; rename Hf into F end.
+  apply Forall_forall. intros [[b st] ln] Hx. specialize (F _ Hx). cbn [check_simple_iv] in F.
+  apply existsb_exists in F as [q [_ Hq]]. apply andb_prop in Hq as [Hq1 Hq2]. exists q. cbn [fst snd]. split; [exact Hq1|].
+  now apply N.eqb_eq in Hq2.
+Qed.
